@@ -24,37 +24,43 @@ Skippable(t, crlf, i) ==
 SkipMask(t, crlf) == [i \in 1..Len(t) |-> Skippable(t, crlf, i)]
 AllSkip(mask, a, b) == \A i \in a..(b - 1) : mask[i]
 
-\* smallest start >= cur such that t[cur..start) is skippable and r matches at start; 0 if none
-RECURSIVE FindStart(_, _, _, _)
-FindStart(t, mask, cur, r) ==
-  IF cur > Len(t) + 1 THEN 0
-  ELSE IF MatchAt(t, cur, r) \/ Len(r) = 0 THEN cur
-  ELSE IF cur <= Len(t) /\ mask[cur] THEN FindStart(t, mask, cur + 1, r) ELSE 0
+\* all starts p >= cur such that t[cur..p) is skippable and r matches at p (increasing order)
+Starts(t, mask, cur, r) ==
+  SetToSortSeq({p \in cur..(Len(t) + 1) : AllSkip(mask, cur, p) /\ (Len(r) = 0 \/ MatchAt(t, p, r))}, <)
 
 WalkFail == [ok |-> FALSE, sl |-> <<>>]
-\* cx = [t, mask, lines (records with s, bp), inds (indent of each line), hyins]
-\* result: ok, and for each line the slice <<p, q, hy>> = t[p..q), hy = a hyphen was inserted after it
-RECURSIVE Walk(_, _, _, _)
+\* cx = [t, mask, lines (records with s, bp), inds (indent of each line), hyins, strict (enforce the borrow clause)]
+\* result: ok, and for each line the slice <<p, q, hy>> = t[p..q), hy = a hyphen was inserted after it.
+\* The walk is existential: it backtracks over every admissible position of every line.
+RECURSIVE Walk(_, _, _, _), TryStarts(_, _, _, _, _, _, _)
+TryStarts(cx, k, cands, i, r, hy, acc) ==
+  IF i > Len(cands) THEN WalkFail
+  ELSE LET p == cands[i]
+           res == Walk(cx, k + 1, p + Len(r), Append(acc, <<p, p + Len(r), hy>>))
+       IN IF res.ok THEN res ELSE TryStarts(cx, k, cands, i + 1, r, hy, acc)
 Walk(cx, k, cur, acc) ==
   IF k > Len(cx.lines) THEN (IF AllSkip(cx.mask, cur, Len(cx.t) + 1) THEN [ok |-> TRUE, sl |-> acc] ELSE WalkFail)
   ELSE LET ln == cx.lines[k].s ind == cx.inds[k] IN
        IF ~StartsWith(ln, ind) THEN WalkFail
        ELSE LET r == SubSeq(ln, Len(ind) + 1, Len(ln))
                 bp == cx.lines[k].bp
-                \* a borrowed line tells its own position
-                p1 == IF bp >= 1 /\ Len(ind) = 0 /\ Len(r) > 0
-                      THEN (IF bp >= cur /\ AllSkip(cx.mask, cur, bp) /\ MatchAt(cx.t, bp, r) THEN bp ELSE 0)
-                      ELSE FindStart(cx.t, cx.mask, cur, r)
-                try1 == IF p1 > 0 THEN Walk(cx, k + 1, p1 + Len(r), Append(acc, <<p1, p1 + Len(r), FALSE>>)) ELSE WalkFail
+                \* a line borrowed from the caller's buffer tells its own position and cannot carry an inserted
+                \* hyphen; a non-empty line without indent that is *not* borrowed from the buffer can only be
+                \* explained by an inserted hyphen (the borrow clause of C01)
+                inbuf == bp >= 1 /\ Len(ind) = 0 /\ Len(r) > 0
+                mustborrow == Len(ind) = 0 /\ Len(r) > 0 /\ cx.strict
+                c1 == IF inbuf THEN (IF bp >= cur /\ AllSkip(cx.mask, cur, bp) /\ MatchAt(cx.t, bp, r) THEN <<bp>> ELSE <<>>)
+                      ELSE IF mustborrow THEN <<>>
+                      ELSE Starts(cx.t, cx.mask, cur, r)
+                try1 == TryStarts(cx, k, c1, 1, r, FALSE, acc)
             IN IF try1.ok THEN try1
-               ELSE IF cx.hyins /\ Len(r) > 0 /\ r[Len(r)] = HY
-                    THEN LET r2 == SubSeq(r, 1, Len(r) - 1) p2 == FindStart(cx.t, cx.mask, cur, r2)
-                         IN IF p2 > 0 THEN Walk(cx, k + 1, p2 + Len(r2), Append(acc, <<p2, p2 + Len(r2), TRUE>>)) ELSE WalkFail
+               ELSE IF cx.hyins /\ ~inbuf /\ Len(r) > 0 /\ r[Len(r)] = HY
+                    THEN LET r2 == SubSeq(r, 1, Len(r) - 1) IN TryStarts(cx, k, Starts(cx.t, cx.mask, cur, r2), 1, r2, TRUE, acc)
                     ELSE WalkFail
 
 TextWalk(e) ==
   Walk([t |-> e.text, mask |-> SkipMask(e.text, e.o.crlf), lines |-> e.lines,
-        inds |-> [k \in 1..Len(e.lines) |-> IndentOfK(e.o, k)], hyins |-> CustomSplitter(e.o)], 1, 1, <<>>)
+        inds |-> [k \in 1..Len(e.lines) |-> IndentOfK(e.o, k)], hyins |-> CustomSplitter(e.o), strict |-> TRUE], 1, 1, <<>>)
 
 (* ---------- intended fragments of a paragraph (vocabulary for the verdicts) ---------- *)
 UaxCutsDecl(s, opps) ==
@@ -120,55 +126,57 @@ RECURSIVE PrefixSumsAcc(_, _, _)
 PrefixSumsAcc(xs, k, acc) == IF k > Len(xs) THEN acc ELSE PrefixSumsAcc(xs, k + 1, Append(acc, acc[k] + xs[k]))
 HintUsable(e) == e.pc /\ Len(e.pl) = Len(ParaRanges(e)) /\ SumSeq(e.pl) = Len(e.lines)
 
-\* walk of paragraph j alone: only spaces are skippable inside a paragraph
-ParaWalk(e, P, first, n) ==
-  Walk([t |-> P, mask |-> [i \in 1..Len(P) |-> P[i] = SP],
-        lines |-> [k \in 1..n |-> [s |-> e.lines[first + k - 1].s, bp |-> 0]],
-        inds |-> [k \in 1..n |-> IndentOfK(e.o, first + k - 1)], hyins |-> CustomSplitter(e.o)], 1, 1, <<>>)
-
-\* fragments fs (paragraph coordinates) + slices -> arrangement <<first,last>>; <<>> if the lines are not
-\* an arrangement of these fragments
-RECURSIVE Assign(_, _, _, _, _)
-Assign(fs, sl, k, q, acc) ==
-  IF k > Len(sl) THEN (IF q = Len(fs) + 1 THEN acc ELSE <<>>)
-  ELSE IF q > Len(fs) THEN <<>>
-  ELSE LET st == sl[k][1] en == sl[k][2] IN
-       IF en = st
-       THEN (IF fs[q].e = fs[q].a THEN Assign(fs, sl, k + 1, q + 1, Append(acc, <<q, q>>)) ELSE <<>>)
-       ELSE IF fs[q].a # st THEN <<>>
-       ELSE LET H == {h \in q..Len(fs) : fs[h].e = en} IN
-            IF H = {} THEN <<>> ELSE LET h == Min(H) IN Assign(fs, sl, k + 1, h + 1, Append(acc, <<q, h>>))
-ArrangementOf(fs, sl) == IF Len(fs) = 0 THEN (IF Len(sl) = 1 /\ sl[1][1] = sl[1][2] THEN << <<1, 0>> >> ELSE <<>>) ELSE Assign(fs, sl, 1, 1, <<>>)
+\* The lines of a paragraph as arrangements of given fragments fs (paragraph coordinates): line k must
+\* be  indent \o text of fragments q..h \o ("-" iff fragment h carries a penalty).  Returns the set of
+\* *all* arrangements that explain the lines (several only when empty-text fragments or a real '-' next
+\* to an inserted one make the reading ambiguous); the verdicts are existential over this set.
+Rendered(P, fs, q, h) == SubSeq(P, fs[q].a, fs[h].e - 1) \o (IF fs[h].pen > 0 THEN <<HY>> ELSE <<>>)
+RECURSIVE ArrSet(_, _, _, _, _, _)
+ArrSet(P, fs, rs, k, q, acc) ==
+  IF k > Len(rs) THEN (IF q = Len(fs) + 1 THEN {acc} ELSE {})
+  ELSE IF q > Len(fs) THEN {}
+  ELSE UNION { ArrSet(P, fs, rs, k + 1, h + 1, Append(acc, <<q, h>>)) :
+                 h \in {x \in q..Len(fs) : Rendered(P, fs, q, x) = rs[k]} }
+\* remainders of lines first..first+n-1 after their indents; <<>> (no lines) if some indent is missing
+ParaRemainders(e, first, n) ==
+  IF \A k \in 1..n : StartsWith(e.lines[first + k - 1].s, IndentOfK(e.o, first + k - 1))
+  THEN [k \in 1..n |-> LET ln == e.lines[first + k - 1].s ind == IndentOfK(e.o, first + k - 1) IN SubSeq(ln, Len(ind) + 1, Len(ln))]
+  ELSE <<>>
+ArrangementsOf(P, fs, rs) ==
+  IF Len(rs) = 0 THEN {}
+  ELSE IF Len(fs) = 0 THEN (IF rs = << <<>> >> THEN { << <<1, 0>> >> } ELSE {})
+  ELSE ArrSet(P, fs, rs, 1, 1, <<>>)
 
 \* widths against which the lines of a paragraph are actually rendered: its first line carries the initial
 \* indent iff it is the very first line of the result
 ActualWidths(o, first) == << SatSub(o.width, DW(IndentOfK(o, first))), SubWidth(o) >>
 
-\* TRUE iff the lines of paragraph j are an arrangement A of the intended fragments (with or without the
-\* zero-width sentinel in front) such that Good(fragments, widths, A)
+\* TRUE iff the lines of paragraph j are a greedy arrangement of the intended fragments (with or without
+\* the zero-width sentinel in front)
 ParaGreedy(e, P, opps, first, n) ==
-  LET wk == ParaWalk(e, P, first, n)
+  LET rs == ParaRemainders(e, first, n)
       f0 == IntendedFrags(P, e.o, opps)
       f1 == <<Sentinel>> \o f0
       lws == ActualWidths(e.o, first)
-      good(fs) == LET arr == ArrangementOf(fs, wk.sl) IN arr # <<>> /\ IsGreedy(Frags(fs), lws, arr)
-  IN wk.ok /\ (good(f0) \/ good(f1))
+      good(fs) == \E arr \in ArrangementsOf(P, fs, rs) : IsGreedy(Frags(fs), lws, arr)
+  IN good(f0) \/ good(f1)
 
 C07text(e) ==
   LET prs == ParaRanges(e) starts == PrefixSumsAcc(e.pl, 1, <<0>>) IN
   \A j \in 1..Len(prs) : ParaGreedy(e, ParaText(e, prs, j), ParaOpps(e, j), starts[j] + 1, e.pl[j])
 
 
-\* "exact" | "skip": can the cost comparison be done exactly in 32-bit integers for every paragraph?
+\* TRUE iff the lines of paragraph j are a minimum-cost arrangement of the intended fragments; vacuously
+\* TRUE when the comparison cannot be done exactly in 32-bit integers or the penalty precondition fails
 ParaOptimal(e, P, opps, first, n) ==
-  LET wk == ParaWalk(e, P, first, n)
+  LET rs == ParaRemainders(e, first, n)
       f0 == IntendedFrags(P, e.o, opps)
       f1 == <<Sentinel>> \o f0
       lws == ActualWidths(e.o, first)
-      good(fs) == LET arr == ArrangementOf(fs, wk.sl) fr == Frags(fs) IN
-                  arr # <<>> /\ (Len(fs) = 0 \/ CostOfArr(fr, lws, e.o.pen, arr) = MinCostDP(fr, lws, e.o.pen))
+      good(fs) == LET fr == Frags(fs) IN
+                  \E arr \in ArrangementsOf(P, fs, rs) : Len(fs) = 0 \/ CostOfArr(fr, lws, e.o.pen, arr) = MinCostDP(fr, lws, e.o.pen)
   IN IF ~(CostExact(Frags(f1), lws, e.o.pen) /\ PenaltyOk(Frags(f0))) THEN TRUE
-     ELSE wk.ok /\ (good(f0) \/ good(f1))
+     ELSE good(f0) \/ good(f1)
 
 C03text(e) ==
   LET prs == ParaRanges(e) starts == PrefixSumsAcc(e.pl, 1, <<0>>) IN
